@@ -17,7 +17,8 @@ Values: "u" | "n<int>" | "f<int>" (one of the opaque functions F[i], usable as g
 """
 
 NKEYS = 4
-NFUN = 6
+NFUN = 8
+NPLAIN = 4     # F[0..3] have no body; F[4..7] may get one (a list of heap operations run on every call)
 
 
 # ------------------------------------------------------------------------------------------------ wire / JS
@@ -29,7 +30,9 @@ def to_wire(h):
     out = []
     for op in h:
         t = op[0]
-        if t == "A":
+        if t == "B":
+            out.append("B %d %s" % (op[1], to_wire([op[2]])))
+        elif t == "A":
             out.append("A %s %s" % (op[1], "-" if op[2] is None else op[2]))
         elif t == "D":
             out.append(("D %d %d %s" % (op[1], op[2], desc_wire(op[3]))).rstrip())
@@ -57,7 +60,9 @@ def from_wire(s):
         if not t:
             continue
         o = lambda x: None if x == "-" else int(x)
-        if t[0] == "A":
+        if t[0] == "B":
+            h.append(("B", int(t[1]), from_wire(" ".join(t[2:]))[0]))
+        elif t[0] == "A":
             h.append(("A", t[1], o(t[2])))
         elif t[0] == "D":
             d = {}
@@ -100,7 +105,8 @@ PRELUDE = r"""
 var O = [Object.prototype, globalThis];
 var F = [], FN = new Map(), r;
 function fmt(v) { return v === undefined ? "u" : (typeof v === "function" ? "f" + FN.get(v) : "n" + v); }
-function mkF(i) { var f = function (v) { print("c:" + i + ":" + (arguments.length ? fmt(v) : "-")); return 1000 + i; }; FN.set(f, i); return f; }
+var BODY = [];
+function mkF(i) { var f = function (v) { print("c:" + i + ":" + (arguments.length ? fmt(v) : "-")); if (BODY[i]) BODY[i](); return 1000 + i; }; FN.set(f, i); return f; }
 for (var i = 0; i < %d; i++) F.push(mkF(i));
 function dump(o) {
   var ks = Reflect.ownKeys(o), out = [];
@@ -116,6 +122,25 @@ function dump(o) {
 }
 function en(e) { return "E:" + (e && e.name); }
 """ % NFUN
+
+
+def body_stmt(op):
+    """statement of an accessor body: a heap operation, result ignored"""
+    t = op[0]
+    if t == "D":
+        return "Reflect.defineProperty(O[%d], \"p%d\", %s);" % (op[1], op[2], js_desc(op[3]))
+    if t == "X":
+        return "Reflect.deleteProperty(O[%d], \"p%d\");" % (op[1], op[2])
+    if t == "P":
+        return "Reflect.setPrototypeOf(O[%d], %s);" % (op[1], "null" if op[2] is None else "O[%d]" % op[2])
+    if t == "E":
+        return "Reflect.preventExtensions(O[%d]);" % op[1]
+    raise ValueError(op)
+
+
+def plain_ops(h):
+    """the operations of a history without the body declarations (what op indices refer to)"""
+    return [op for op in h if op[0] != "B"]
 
 
 def to_js(h):
@@ -135,6 +160,13 @@ def to_js(h):
             L.append("function s_%d_%d(o, v) { \"use strict\"; o.p%d = v; }" % (s, k, k))
         else:
             L.append("function n_%d_%d() { return p%d; }" % (s, k, k))
+    bodies = {}
+    for op in h:
+        if op[0] == "B":
+            bodies.setdefault(op[1], []).append(body_stmt(op[2]))
+    for f in sorted(bodies):
+        L.append("BODY[%d] = function () { %s };" % (f, " ".join(bodies[f])))
+    h = [op for op in h if op[0] != "B"]
     L.append("__ev();")
     for i, op in enumerate(h):
         t = op[0]
@@ -177,6 +209,7 @@ class Gen:
         self.objs = {0: {"keys": set(), "proto": None, "uniq": True}, 1: {"keys": set(), "proto": 0, "uniq": True}}
         self.nsite = {"G": 2, "S": 2, "N": 2}
         self.stats = {}
+        self.free_body_fids = list(range(NPLAIN, NFUN))
 
     def emit(self, op):
         self.h.append(op)
@@ -187,11 +220,11 @@ class Gen:
         if r < 0.75:
             return "n%d" % self.rng.randrange(1, 90)
         if r < 0.9:
-            return "f%d" % self.rng.randrange(NFUN)
+            return "f%d" % self.rng.randrange(NPLAIN)
         return "u"
 
     def fn(self):
-        return "f%d" % self.rng.randrange(NFUN)
+        return "f%d" % self.rng.randrange(NPLAIN)
 
     def user_objs(self):
         return [o for o in self.objs if o >= 2]
@@ -512,9 +545,65 @@ class Gen:
             if r.random() < 0.5:
                 self.get(chain[-2], k, s) if kind == "G" else self.set(chain[-2], k, s)
 
+    def frag_selfmod(self):
+        """an accessor whose getter/setter body changes the heap while the slow path is between its lookup and the cache store:
+        lazy memoisation on the receiver, redefinition/deletion of the served property, layout shifts, prototype changes."""
+        r = self.rng
+        if len(self.free_body_fids) < 2:
+            return self.frag_proto()
+        fg, fs = self.free_body_fids.pop(0), self.free_body_fids.pop(0)
+        k = r.randrange(NKEYS)
+        others = [x for x in range(NKEYS) if x != k]
+        holder = self.alloc(proto=r.choice([None, None, 0]), uniq=r.random() < 0.2)
+        if r.random() < 0.5:
+            self.define(holder, r.choice(others), self.full_data())          # a key before k: deleting it shifts k's slot
+        through_proto = r.random() < 0.6
+        recv = self.alloc(proto=holder, uniq=r.random() < 0.2) if through_proto else holder
+        other = self.alloc(proto=None, uniq=False) if r.random() < 0.3 else None
+
+        def body():
+            m = r.random()
+            if m < 0.25:
+                return [("D", recv, k, self.full_data(w=True))]                                   # memoise on the receiver
+            if m < 0.40:
+                return [("D", holder, k, self.full_data(w=True) if r.random() < 0.7 else self.full_acc())]   # redefine where it lives
+            if m < 0.52:
+                return [("X", holder, k)]
+            if m < 0.64:
+                ks = sorted(self.objs[holder]["keys"] - {k})
+                return [("X", holder, r.choice(ks))] if ks else [("D", holder, r.choice(others), self.full_data())]
+            if m < 0.72:
+                return [("D", holder, r.choice(others), self.full_acc())]
+            if m < 0.80 and other is not None:
+                return [("P", recv, other)]
+            if m < 0.86:
+                return [("E", recv)]
+            if m < 0.93:
+                return [("D", recv, r.choice(others), self.full_data())]
+            return [("X", holder, k), ("D", holder, k, self.full_data(w=True))]
+        for f in (fg, fs):
+            if r.random() < 0.8:
+                for b in body():
+                    self.emit(("B", f, b))
+        self.define(holder, k, {"g": "f%d" % fg, "s": "f%d" % fs, "e": True, "c": True})
+        kind = r.choice(["G", "G", "S"])
+        s = r.randrange(self.nsite[kind])
+        for rnd in range(r.choice([1, 2])):
+            for _ in range(r.choice([2, 3])):
+                self.get(recv, k, s) if kind == "G" else self.set(recv, k, s)
+                if recv != holder and r.random() < 0.3:
+                    self.get(holder, k, s) if kind == "G" else self.set(holder, k, s)
+            if rnd == 0 and r.random() < 0.6:
+                self.define(holder, k, {"g": "f%d" % fg, "s": "f%d" % fs, "e": True, "c": True})      # arm it again
+                if r.random() < 0.5:
+                    self.delete(recv, k)
+        self.emit(("M", holder))
+        if recv != holder:
+            self.emit(("M", recv))
+
     def build(self):
         r = self.rng
-        frags = [self.frag_poly, self.frag_proto, self.frag_proto, self.frag_global, self.frag_own, self.frag_deep]
+        frags = [self.frag_poly, self.frag_proto, self.frag_proto, self.frag_global, self.frag_own, self.frag_deep, self.frag_selfmod]
         while len(self.h) < self.size:
             m = r.random()
             if m < 0.55:
